@@ -41,6 +41,41 @@ func runC16(c *core.Ctx) {
 	m := bitcoin_reader.NewBlockManager(rec, req, concurrent, delay)
 	// stalled goroutine faults: the code's marked scheduling points may hold a goroutine until released
 	parkRate := []int{0, 6, 3}[t.Draw(3)]
+	// Engine F (instrumented build only): every statement and lock of the block download code is a
+	// scheduling decision of the tape
+	var fd *core.FDriver
+	if core.FAvailable() {
+		sch := core.NewFScheduler()
+		sch.Install()
+		defer sch.Uninstall()
+		defer sch.Off()
+		fd = &core.FDriver{S: sch, T: t, Preempt: []int{4, 8, 20}[t.Draw(3)]}
+		parkRate = 0
+		defer func() { c.SetInterleaving(sch.Hash(), sch.Steps()) }()
+	}
+	early := 0
+	// settle lets the system run: to quiescence (Engine G), or under the tape's scheduler until idle or
+	// an early stop that leaves goroutines in the middle of their calls (Engine F). True when idle.
+	settle := func() bool {
+		if fd != nil {
+			return fd.Settle(early, 200000)
+		}
+		synctest.Wait()
+		return true
+	}
+	driverCall := func(f func()) (ok bool) {
+		if fd == nil {
+			f()
+			return true
+		}
+		defer func() {
+			if r := recover(); r != nil {
+				ok = false // a lock the call needs is held by a parked goroutine: try again later
+			}
+		}()
+		fd.S.DriverCall(f)
+		return true
+	}
 	parker := bw.NewParker(t.Draw, parkRate)
 	bitcoin_reader.SimYield = parker.Hook
 	defer func() { bitcoin_reader.SimYield = nil }()
@@ -74,8 +109,12 @@ func runC16(c *core.Ctx) {
 
 	addRequest := func() {
 		b := blocks[nextBlock]
+		var complete <-chan error
+		var abort chan<- interface{}
+		if !driverCall(func() { complete, abort = m.AddRequest(ctx, b.Hash, 700000+nextBlock+1, rec) }) {
+			return
+		}
 		nextBlock++
-		complete, abort := m.AddRequest(ctx, b.Hash, 700000+nextBlock, rec)
 		r := &c16request{blk: b, complete: complete, abort: abort, done: make(chan struct{})}
 		requests = append(requests, r)
 		cur = r
@@ -140,7 +179,11 @@ func runC16(c *core.Ctx) {
 	}
 	check := func() {
 		for _, b := range blocks {
-			if n := m.DownloaderCount(b.Hash); n > concurrent {
+			n := 0
+			if !driverCall(func() { n = m.DownloaderCount(b.Hash) }) {
+				continue
+			}
+			if n > concurrent {
 				c.Fail("c16.concurrent-downloads-bounded", fmt.Sprintf("count=%d max=%d", n, concurrent), "%d downloaders are registered for one block, the configured maximum is %d", n, concurrent)
 			}
 		}
@@ -154,10 +197,16 @@ func runC16(c *core.Ctx) {
 	}
 
 	act := func(faulty bool) {
-		synctest.Wait()
+		early = 0
+		if faulty && fd != nil {
+			early = 25
+		}
+		idle := settle()
 		collect()
-		check()
-		if cur == nil || len(cur.signals) > 0 || cur.left {
+		if idle {
+			check()
+		}
+		if idle && (cur == nil || len(cur.signals) > 0 || cur.left) {
 			if nextBlock < len(blocks) && !interrupted {
 				addRequest()
 				return
@@ -342,6 +391,11 @@ func runC16(c *core.Ctx) {
 			break
 		}
 	}
+	early = 0
+	settle()
+	if fd != nil {
+		fd.S.Off() // from here on everything runs freely
+	}
 	synctest.Wait()
 	collect()
 	check()
@@ -446,6 +500,7 @@ func init() {
 		FaultKinds: []string{"source:not-available", "source:wrong-block", "source:drop-before-start", "source:stream-cut", "source:drop-mid-block", "request:abort", "shutdown", "source:drop-during-shutdown", "source:drop-after-cancel", "stalled-goroutine-released"},
 		ProbeNames: []string{"terminal:completed", "terminal:value:Block Aborted", "abort-acknowledged", "abort-and-shutdown-same-instant", "two-actions-same-instant", "handler-start-and-shutdown-same-instant", "run-with-stalled-goroutines"},
 		Run:          runC16,
-		QuickSeconds: 25, ThoroughSeconds: 900, MinRuns: 300, BatchSize: 25, RunTimeoutSeconds: 300,
+		QuickSeconds: 20, ThoroughSeconds: 700, MinRuns: 300, BatchSize: 25, RunTimeoutSeconds: 300,
+		FQuickSeconds: 15, FThoroughSeconds: 500,
 	})
 }
